@@ -6,7 +6,7 @@
    Proofs in Loop/C04Proofs.v (invariant Inv4 over every step of every schedule, on top of the
    lifecycle invariant of Loop/WorldProofs.v).  Statements, pins, non-vacuity, assumptions only. *)
 From Coq Require Import List Arith Bool.
-From RV Require Import Loop.World Loop.Checks Loop.WorldProofs Loop.PickProofs Loop.C04Proofs.
+From RV Require Import Loop.World Loop.Checks Loop.LocalChecks Loop.WorldProofs Loop.PickProofs Loop.C04Proofs.
 Import ListNotations.
 
 (* For every world of scripted actors (arbitrary callback bodies and results: Ok / Err / panic,
@@ -131,6 +131,34 @@ Proof. reflexivity. Qed.
 Example reject_wrong_failure_text :
   check_C04 [None; Some 0] [TExit 1 (Handle 7) (RPanic 5); TEnter 0 (Sup (SFailed 1 6))] = false.
 Proof. reflexivity. Qed.
+
+(* ---- thread-local children (Loop/LocalChecks.v): the state slot of ActorTerminated is empty by
+   construction (the state is not Send); check_C04_local admits exactly that and nothing else ---- *)
+Definition tl_graceful (x : supevt) : list tev :=
+  [TEnter 1 PreStart; TExit 1 PreStart ROk; TEnter 1 PostStart; TExit 1 PostStart ROk; TStopReq 1 (Some 10);
+   TEnter 1 PostStop; TExit 1 PostStop ROk; TEnter 0 (Sup x)].
+Example local_accepts_graceful_without_state :
+  check_C04_local [None; Some 0] (tl_graceful (STerminated 1 false (Some 10))) = true
+  /\ check_C04 [None; Some 0] (tl_graceful (STerminated 1 false (Some 10))) = false.
+Proof. split; reflexivity. Qed.
+Example local_rejects_state :
+  check_C04_local [None; Some 0] (tl_graceful (STerminated 1 true (Some 10))) = false.
+Proof. reflexivity. Qed.
+Example local_rejects_unbacked_reason :
+  check_C04_local [None; Some 0] (tl_graceful (STerminated 1 false (Some 11))) = false
+  /\ check_C04_local [None; Some 0] (tl_graceful (STerminated 1 false (Some 0))) = false.
+Proof. split; reflexivity. Qed.
+Example local_rejects_stranger_and_duplicate :
+  check_C04_local [None; None] (tl_graceful (STerminated 1 false (Some 10))) = false
+  /\ check_C04_local [None; Some 0] (tl_graceful (STerminated 1 false (Some 10))
+                                       ++ [TEnter 0 (Sup (STerminated 1 false (Some 10)))]) = false.
+Proof. split; reflexivity. Qed.
+Example local_same_as_send_otherwise :
+  check_C04_local [None; Some 0] [TKillReq 1; TEnter 0 (Sup (STerminated 1 false (Some 0)))] = true
+  /\ check_C04_local [None; Some 0] [TEnter 0 (Sup (SStarted 1))] = false
+  /\ check_C04_local [None; Some 0] [TExit 1 (Handle 7) (RPanic 5); TEnter 0 (Sup (SFailed 1 6))] = false
+  /\ check_C04_local [None; Some 0] [TEnter 0 (Sup (STerminated 1 false (Some 0)))] = false.
+Proof. repeat split; reflexivity. Qed.
 
 (* ---- and the model really runs: one supervisor, every kind of exit ---- *)
 Definition nv_child (pre : fin) := mkCfg ([], pre) ([], ROk) ([], ROk) SupDefault (Some 0).
